@@ -9,6 +9,7 @@ here with hashlib - hashing itself is C01's business).
 Direct oracle: lib.bdecode_strict + field-by-field comparison with the command line; creation date inside the
 run's wall-clock window; byte-identical output with --no-creation-date on a second tree with the same content
 populated in a different creation order."""
+import zlib
 import hashlib, json, os, re, shlex, shutil, tempfile, time
 import lib
 
@@ -281,6 +282,9 @@ def output_path(c, root):
     return None
 
 
+TIME_ZONES = [None, "UTC", "XXX-5", "YYY8", "ZZZ-5:30", "AAA-14", "BBB12", None]
+
+
 def run_once(ctx, c, order, no_date=False, base=None, force_over=None):
     """one run of the real binary in a fresh directory; returns an observation dict.
     force_over: bytes placed at the output path beforehand; the run then passes --force (a forced re-creation over an
@@ -298,8 +302,14 @@ def run_once(ctx, c, order, no_date=False, base=None, force_over=None):
         if c["tree"]["kind"] == "stdin":
             f = c["tree"]["files"][0]
             stdin = content_of(f["size"], f["word"])
+        # the process environment is part of "every input": the time zone must not move the creation date (POSIX TZ strings,
+        # no tzdata needed), chosen from the command line so that a case replays with the same zone
+        env = {"NO_COLOR": "1", "TERM": "dumb"}
+        tz = TIME_ZONES[zlib.crc32(" ".join(argv).encode()) % len(TIME_ZONES)]
+        if tz is not None:
+            env["TZ"] = tz
         t0 = int(time.time())
-        rc, out, err = ctx.imdl(argv, cwd=root, stdin=stdin, env={"NO_COLOR": "1", "TERM": "dumb"}, timeout=120)
+        rc, out, err = ctx.imdl(argv, cwd=root, stdin=stdin, env=env, timeout=120)
         t1 = int(time.time())
         new = sorted(set(os.listdir(root)) - set(before))
         op = output_path(c, root)
@@ -309,7 +319,7 @@ def run_once(ctx, c, order, no_date=False, base=None, force_over=None):
         elif os.path.isfile(op):
             data = open(op, "rb").read()
         return {"argv": argv, "rc": rc, "bytes": data, "stdout_len": len(out), "new_entries": new,
-                "stderr": err.decode("utf-8", "replace")[-400:], "t0": t0, "t1": t1, "order": order}
+                "stderr": err.decode("utf-8", "replace")[-400:], "t0": t0, "t1": t1, "order": order, "TZ": tz}
     finally:
         shutil.rmtree(root, ignore_errors=True)
 
@@ -520,7 +530,7 @@ def case_record(c, obs=None, problems=None, **kw):
            "reproduce_rerun_with_no_creation_date": shell_repro(c, no_date=True)}
     if obs is not None:
         rec["impl"] = {"rc": obs["rc"], "bytes": obs["bytes"], "stderr": obs["stderr"], "window": [obs["t0"], obs["t1"]],
-                       "creation_order": obs["order"]}
+                       "creation_order": obs["order"], "environment": {"TZ": obs.get("TZ")}}
     if problems is not None:
         rec["oracle"] = problems
     rec.update(kw)
